@@ -117,6 +117,14 @@ func VerifC17_Redial() {
 	verifapi.Quiesce()
 	verifapi.Cover("redial: quiescent before close")
 	verifapi.Assert(!dialErr, "no dial error before the harness allows it")
+	open := 0
+	for i := 0; i < n; i++ {
+		if carriers[i].closeCnt == 0 {
+			open++
+		}
+	}
+	verifapi.Assert(open <= 1, "at most one carrier is active")
+	verifapi.Assert(verifapi.LiveGoroutines("exchange") <= 2*open, "no goroutine is retained per redial: once a carrier is given up its reader and writer goroutines are gone")
 	err = c.Close()
 	verifapi.Assert(err == nil, "first Close succeeds")
 	close(stop)
